@@ -157,6 +157,20 @@ fn install_fatal_hook(sim: &Arc<Sim>, sink: FatalSink) {
         }
         if sink.print {
             println!("{line}");
+            if !fatal.trace_tail.is_empty() {
+                println!("---- {} / {} (run seed {}): store {:?}", sink.scenario.property, sink.scenario.engine, sink.scenario.seed, sink.scenario.store);
+                println!("sim: strategy={:?} tick_ns={} shards={} workers={}", sink.scenario.sim.strategy, sink.scenario.sim.tick_ns, sink.scenario.sim.shards, sink.scenario.sim.workers);
+                for (c, ops) in sink.scenario.clients.iter().enumerate() {
+                    for (i, op) in ops.iter().enumerate() {
+                        println!("client {c} op #{i}: {op:?}");
+                    }
+                }
+                println!("---- schedule (last {} steps before the fatal condition): step thread site", fatal.trace_tail.len());
+                for (step, thread, name, site) in &fatal.trace_tail {
+                    println!("{step:>7} t{thread} {name:<12} {site}");
+                }
+                println!("---- {}", fatal.detail);
+            }
         }
         crate::harness::remove_scratch_dir();
         std::process::exit(if inconclusive {
